@@ -154,6 +154,22 @@ func gen(rng *rand.Rand, tier core.Tier, emit core.Emit) {
 		follow := []string{fmt.Sprintf("@report|%s|10481|00000001|%s|5", a1, hexs("srv")), "@pop|3|fail", "@pop|3|ok:10481:" + hexs("y") + ":1", "@renew|00000001|1.1.1.1"}[rng.Intn(4)]
 		emit("uc", init, sc.client+","+follow, ev+",t3000000000,r1")
 	}
+	// a heartbeat (or keepalive) commits while a probe on its LAST attempt is being recorded: the final-failure
+	// transformation must be applied to the latest record (the mark goes: nothing is queued any more)
+	for goal := 0; goal < 2; goal++ {
+		st := 2 | 4 | 128 // master|info|port_retry
+		port := 10480
+		if goal == 0 {
+			st = 2 | 4 | 64 | 16 // master|info|port|details_retry
+			port = 10481
+		}
+		init := fmt.Sprintf("call|add!%s/10481/%d/1/z!refuse,call|insadd!00000001!%s,call|penq!%s!%d!%d!2!2!z!z", a1, st, a1, a1, port, goal)
+		for _, other := range []string{fmt.Sprintf("@report|%s|10481|00000001|%s|5", a1, hexs("srv")), "@renew|00000001|1.1.1.1"} {
+			for k := 0; k <= 3; k++ {
+				emit("uc", init, "pop|1|fail,"+other, strings.Repeat("c0,", k)+"r1,r0")
+			}
+		}
+	}
 	// the prober resolves the fresh probe before the mark is committed (success / retry)
 	for _, outcome := range []string{"ok:10481:" + hexs("q") + ":4", "fail"} {
 		for c := 3; c <= 4; c++ {
